@@ -443,6 +443,19 @@ class Engine:
         return b
 
     @staticmethod
+    def _simple_addr(addr):
+        """address of the form  symbol  or  symbol + constant  (a field of an object handed in by the caller); loads at
+        computed addresses are left as they are (they may mention bound variables of quantified contract clauses)"""
+        a = simp(addr)
+        if z3.is_const(a) and not z3.is_bv_value(a):
+            return True
+        if a.decl().kind() == z3.Z3_OP_BADD and len(a.children()) == 2:
+            x, y = a.children()
+            return (z3.is_bv_value(x) and z3.is_const(y) and not z3.is_bv_value(y)) or \
+                   (z3.is_bv_value(y) and z3.is_const(x) and not z3.is_bv_value(x))
+        return False
+
+    @staticmethod
     def _addr_key(addr):
         """(base key, constant offset) of an address term"""
         a = simp(addr)
@@ -464,7 +477,7 @@ class Engine:
             bs = [z3.Select(mem, simp(addr + BV(k, self.pbits))) for k in range(n)]
             v = bs[0] if n == 1 else z3.Concat(*reversed(bs))
             v = simp(v)
-            if n > 1 and z3.is_app(v) and v.decl().kind() == z3.Z3_OP_CONCAT and all(
+            if n > 1 and self._simple_addr(addr) and z3.is_app(v) and v.decl().kind() == z3.Z3_OP_CONCAT and all(
                     c.decl().kind() == z3.Z3_OP_SELECT and z3.is_const(c.arg(0)) for c in v.children()):
                 # a multi-byte read of untouched caller memory: name it, so that later rewriting cannot split it
                 key = v.sexpr()
